@@ -254,6 +254,15 @@ func Drive(ck *Check, tier string, seed int64, self, bin, root string, workers i
 		}
 		printed++
 	}
+	if len(agg.Violations) > 0 {
+		bySig := map[string]int{}
+		for _, v := range agg.Violations {
+			bySig[v.Sig]++
+		}
+		for _, k := range sortedKeys(bySig) {
+			fmt.Printf("  violations with sig %s: %d\n", k, bySig[k])
+		}
+	}
 	if printed > 25 {
 		fmt.Printf("  … %d further violations not printed\n", printed-25)
 	}
